@@ -38,19 +38,19 @@ begin
   resetable_bitvector <= buffer_resetable_bitvector;
   
 
-  proc: process(clk)
+  proc: process(clk, reset)
     variable temp : boolean;
     variable temp1 : boolean;
     variable temp2 : unsigned(2 downto 0);
   begin
-    if rising_edge(clk) then
-      temp := reset = '1';
-      temp1 := not (temp);
-      if temp1 then
-        cnt <= unsigned'("011");
-        buffer_resetable_bit <= '0';
-        buffer_resetable_bitvector <= "000";
-      else
+    temp := reset = '1';
+    temp1 := not (temp);
+    if temp1 then
+      cnt <= unsigned'("011");
+      buffer_resetable_bit <= '0';
+      buffer_resetable_bitvector <= "000";
+    else
+      if rising_edge(clk) then
         temp2 := (cnt) + (1);
         cnt <= temp2;
         buffer_out_bit <= cnt(1);
